@@ -3,7 +3,7 @@
    Statements only; every proof is [exact <lemma>]. *)
 From Coq Require Import String List NArith ZArith Bool.
 From IonV Require Import Base.Wire Bin.Bits Data.Ion Bin.BitStream Bin.BinReader
-  Bin.BitStreamP Bin.BitStreamNextP Bin.BinReaderInvP Bin.BinReaderP.
+  Bin.BitStreamP Bin.BitStreamNextP Bin.BinReaderInvP Bin.BinReaderP Bin.BinReaderTs Bin.BinReaderTsP.
 Import ListNotations.
 Open Scope N_scope.
 
@@ -44,6 +44,22 @@ Theorem C06bin_call_preserves_invariant : forall r o, RInv r ->
   RInv (fst (r_op ts r o)) /\ snd (r_op ts r o) <> None /\ wle (r_bits r) (r_bits (fst (r_op ts r o))).
 Proof. exact (r_op_safe ts ts_total). Qed.
 End C06.
+
+(* the hypothesis on [ts] holds for the timestamp reader the checks actually run (Num/Timestamp.v,
+   repaired tree): it neither panics nor runs out of fuel on any body *)
+Theorem C06bin_default_ts_total : forall body,
+  ts_ok_default body <> Panic /\ ts_ok_default body <> OutOfFuel.
+Proof. exact ts_ok_default_total. Qed.
+Theorem C06bin_never_panics_default : forall a b rest ioerr (p : list rop),
+  ~ In (s "panic"%string) (snd (r_run ts_ok_default (r_init (224 :: a :: b :: 234 :: rest) ioerr) p [])).
+Proof. exact (C06bin_never_panics ts_ok_default ts_ok_default_total). Qed.
+Theorem C06bin_every_call_returns_default : forall a b rest ioerr (p : list rop),
+  exists r' tr, r_run_ok ts_ok_default (r_init (224 :: a :: b :: 234 :: rest) ioerr) p = Some (r', tr).
+Proof. exact (C06bin_every_call_returns ts_ok_default ts_ok_default_total). Qed.
+Theorem C06bin_traverse_memory_default : forall a b rest ioerr,
+  let inp := 224 :: a :: b :: 234 :: rest in
+  snd (traverse ts_ok_default inp ioerr) <= N.of_nat (length inp) + 65536.
+Proof. exact (C06bin_traverse_memory ts_ok_default ts_ok_default_total). Qed.
 
 (* bitstream level: every operation keeps the cursor invariant and neither panics nor runs out of fuel *)
 Theorem C06bin_bitstream_next : forall b, binv b -> ospec b (b_next b) (fun b' _ => npost b b').
